@@ -211,7 +211,8 @@ pub fn get_insertion_index(position: &Position, text: &str) -> usize {
     let mut character = 0;
     let pos = (position.line, position.character);
     for (i, c) in text.char_indices() {
-        if line == pos.0 && character >= pos.1 {
+        if line == pos.0 && (character >= pos.1 || c == '\n') {
+            // a column past the end of the line means the end of that line
             return i;
         }
         if c == '\n' {
